@@ -196,6 +196,15 @@ theorem C13_bbox_fast_eq_generic (N0 N1 : Nat) (data : List Int) (hlen : data.le
     bboxFast N0 N1 data = bboxGeneric [N0, N1] data :=
   bboxFast_eq_generic N0 N1 data hlen
 
+/-- **C13-T2 (labeled.bbox).** The model of `bbox_labeled` (+ the absent-label zeroing) returns, for every
+label `l = 0..n`, exactly what the model of `bbox` returns on the indicator image of label `l` — so each
+row is the tight box of the pixels carrying `l` (`C13_bbox_generic_tight`, `C13_bbox_result`) and all zeros
+for an absent label. -/
+theorem C13_bbox_labeled_eq_bbox_of_indicator (shape : List Nat) (labels : List Int) (n : Nat) :
+    bboxLabeled shape labels n =
+      (List.range (n + 1)).flatMap fun l => bboxGeneric shape (indicator labels l) :=
+  bboxLabeled_eq shape labels n
+
 /-- **C13-T3 (com_eq).** Over any field (the driver runs the same polymorphic definition with `Float`
 arithmetic), the model of `center_of_mass` — one pass accumulating `totals[label] += v` and
 `centers[label][j] += v * index_rev(j)`, then the division and the coordinate reversal — returns for every
